@@ -105,6 +105,7 @@ fn judge(wl: &Workload, f: &Fault) -> Result<Option<(String, String)>, String> {
 	let mut ok_keys: Vec<String> = vec![];
 	let mut ok_after_failure: Vec<String> = vec![];
 	let mut failed_keys: BTreeSet<String> = BTreeSet::new();
+	let mut all_failed: BTreeMap<String, String> = BTreeMap::new();
 	let mut any_commit_failed = false;
 	let mut any_error_reported = false;
 	for r in &results {
@@ -119,7 +120,8 @@ fn judge(wl: &Workload, f: &Fault) -> Result<Option<(String, String)>, String> {
 					ok_after_failure.push(k);
 				}
 			} else {
-				failed_keys.insert(k);
+				failed_keys.insert(k.clone());
+				all_failed.insert(k, r["err"].as_str().unwrap_or("").to_string());
 				any_commit_failed = true;
 			}
 		}
@@ -191,6 +193,27 @@ fn judge(wl: &Workload, f: &Fault) -> Result<Option<(String, String)>, String> {
 					return Ok(Some((
 						format!("{kind}:{}", f.class_name),
 						format!("acknowledged key {k} missing after crash+reopen; recovered {:?}; commit results {:?}", have, results.iter().filter_map(|r| r.get("commit").map(|c| format!("{}:{}", c, r["ok"]))).collect::<Vec<_>>()),
+					)));
+				}
+			}
+			// "none of the transaction's writes becomes visible to any reader": also not to the readers
+			// of the recovered store. Class = the stage at which the commit had failed.
+			for (k, err) in &all_failed {
+				if have.contains(k) {
+					let stage = if err.contains("WAL error") {
+						match f.class_name {
+							"write" => "wal-append-error".to_string(),
+							"fsync" => "wal-sync-error".to_string(),
+							c => format!("wal-error-on-{c}"),
+						}
+					} else if err.starts_with("Commit failed") {
+						"apply-error-after-wal-append".to_string()
+					} else {
+						format!("other:{}", crate::props::norm_msg(err).chars().take(40).collect::<String>())
+					};
+					return Ok(Some((
+						format!("failed-commit-recovered:{stage}"),
+						format!("key {k} of a commit that returned an error ({err}) is present after crash+reopen; commit results {:?}", results.iter().filter_map(|r| r.get("commit").map(|c| format!("{}:{}", c, r["ok"]))).collect::<Vec<_>>()),
 					)));
 				}
 			}
@@ -278,7 +301,7 @@ pub fn check(tier: Tier) -> i32 {
 	report.set("failures_per_class", json!(per_class));
 	report.set("unjudged_unrecoverable_after_reported_failure", json!(UNJUDGED.load(std::sync::atomic::Ordering::Relaxed)));
 	report.assume("after a fault that WAS reported to the application (a commit, flush, sync or reopen returned an error) only commits acknowledged after the first failed commit are required to survive (the statement's wording); if the fault was never reported, everything acknowledged must be readable and must survive");
-	report.assume("faults are injected at the libc boundary by the LD_PRELOAD shim after the initial open; whether a failed commit's record reappears after recovery is not judged (the statement only constrains the running store and later acknowledged commits)");
+	report.assume("faults are injected at the libc boundary by the LD_PRELOAD shim after the initial open; a failed commit must be invisible in the running store AND in the store recovered after the crash (readers of the recovered store are readers too); within one workload a clean reopen clears the list of failed keys for the running-store check");
 	report.finish()
 }
 
